@@ -995,3 +995,36 @@ Proof.
   - split; [exact Hb|].
     destruct (field_roundtrip oc FFeat _ Hv eq_refl) as (e & He & Hd). exists e. auto.
 Qed.
+
+(* ------------------------------------------------------------------ *)
+(* default-elided records *)
+
+Lemma elide_roundtrip_iff emit d :
+  (forall v, el_decode d (el_encode emit v) = v) <-> (forall v, emit v = false -> v = d).
+Proof.
+  unfold el_decode, el_encode. split.
+  - intros H v Hv. specialize (H v). rewrite Hv in H. symmetry. exact H.
+  - intros H v. destruct (emit v) eqn:E; [reflexivity|]. symmetry. apply H. exact E.
+Qed.
+
+Lemma elide_canonical emit d :
+  (forall v, emit v = negb (v =? d)) ->
+  (forall v, el_decode d (el_encode emit v) = v) /\
+  (forall w, el_encode emit (el_decode d w) = match w with Some v => if v =? d then None else w | None => None end).
+Proof.
+  intros H. split.
+  - apply elide_roundtrip_iff. intros v Hv. rewrite H in Hv. apply negb_false_iff in Hv.
+    apply N.eqb_eq. exact Hv.
+  - intros [v|]; unfold el_decode, el_encode; rewrite H.
+    + destruct (v =? d); reflexivity.
+    + rewrite N.eqb_refl. reflexivity.
+Qed.
+
+Lemma elision_ok_spec e d :
+  elision_ok e = true -> el_default e = DConst d ->
+  forall v, etest_fn (el_test e) v = negb (v =? d).
+Proof.
+  unfold elision_ok. intros H Hd. rewrite Hd in H.
+  destruct (el_test e) as [c| |]; try discriminate.
+  apply N.eqb_eq in H. subst c. reflexivity.
+Qed.
